@@ -4,7 +4,15 @@ func H_C06_Parameters() {
 	wc := vParam("wc")
 	raw := vBytes("words", 2*wc)
 	p := NewParameters()
-	p.AddWordsFromBytesStream(raw)
+	if vParam("via") == 1 {
+		// the block built word by word
+		for i := 0; i < wc; i++ {
+			p.AddWord(uint16(raw[2*i])<<8 | uint16(raw[2*i+1]))
+		}
+	} else {
+		p.AddWordsFromBytesStream(raw)
+	}
+	vCheck(int(p.Size()) == wc, "Parameters/Size-is-the-number-of-words")
 	enc, err := p.Marshal()
 	vCheck(err == nil, "Parameters/marshal-ok")
 	vCheck(len(enc) == 1+2*wc, "Parameters/size")
